@@ -31,15 +31,15 @@ abbrev Bytes := List UInt8
 
 def otherNames : List String := ["table", "function", "userdata", "thread"]
 
-/-- values the table library only stores and moves keep their identity in the tag:
-    floats as `4·bits + 1`, other types as `4·(index of the type name) + 2` -/
+/-- values the table library only stores and moves keep their identity: floats by their bits, other types
+    by the index of the type name -/
 def toVal : V → Val
   | .nil => .nil
   | .bool b => .bool b
   | .int n => .int n.toInt
-  | .flt b => .other (4 * b.toNat + 1)
+  | .flt b => .flt (BitVec.ofNat 64 b.toNat)
   | .str s => .str s.data.toList
-  | .other t => .other (4 * (otherNames.idxOf t) + 2)
+  | .other t => .other (otherNames.idxOf t)
 
 def hexBytes (b : Bytes) : String := b.foldl (fun s x => s ++ hexOfNat x.toNat 2) ""
 
@@ -49,9 +49,8 @@ def showVal : Val → String
   | .bool false => "F"
   | .int i => "i" ++ toString i
   | .str s => "s" ++ hexBytes s
-  | .other t =>
-    if t % 4 == 1 then "f" ++ hexOfNat (t / 4) 16
-    else "o" ++ (otherNames[t / 4]?).getD "?"
+  | .flt b => "f" ++ hexOfNat b.toNat 16
+  | .other t => "o" ++ (otherNames[t]?).getD "?"
 
 /-- an argument token: a value, or a reference to table 1 / table 2 -/
 inductive Arg where
@@ -224,7 +223,11 @@ def handlerOf : Char → Option Handler
   | _ => none
 
 inductive LenMode where
-  | raw | back | fixed (n : Int)
+  | raw                -- no __len: the border golua reports for the raw table
+  | back               -- __len returns #back (an integer)
+  | fixed (n : Int)    -- __len returns the integer n
+  | conv (n : Int)     -- __len returns n as an integral float (`F<n>`) or as a numeric string (`S<n>`): luaL_len converts it
+  | bad                -- __len returns a non-integral float (`X`) or a non-number (`N`): "object length is not an integer"
 
 structure TabIn where
   tab : MTab
@@ -241,6 +244,10 @@ def parseTab (s : String) : Option (Option TabIn) :=
       let lm : Option LenMode := match l with
         | ['r'] => some .raw
         | ['b'] => some .back
+        | ['X'] => some .bad
+        | ['N'] => some .bad
+        | 'F' :: d => (String.ofList d).toInt?.map .conv
+        | 'S' :: d => (String.ofList d).toInt?.map .conv
         | _ => (String.ofList l).toInt?.map .fixed
       match handlerOf i, handlerOf n, lm, parseMap own, parseMap back with
       | some hi, some hn, some lm, some o, some b => some (some { tab := { own := o, back := b, idx := hi, nidx := hn }, lenMode := lm })
@@ -248,11 +255,22 @@ def parseTab (s : String) : Option (Option TabIn) :=
     | _ => none
   | _ => none
 
-def lenOK (t : TabIn) (n : Int) : Bool :=
+/-- is the `#t` golua reported (absent when it is not an integer) acceptable for this table? -/
+def lenOK (t : TabIn) (n : Option Int) : Bool :=
+  match t.lenMode, n with
+  | .raw, some n => t.tab.own.isBorder n
+  | .back, some n => t.tab.back.isBorder n
+  | .fixed k, some n => n == k
+  | .conv _, _ => true
+  | .bad, _ => true
+  | _, none => false
+
+/-- the length `luaL_len` yields: `none` = it raises -/
+def effLen (t : TabIn) (n : Option Int) : Option Int :=
   match t.lenMode with
-  | .raw => t.tab.own.isBorder n
-  | .back => t.tab.back.isBorder n
-  | .fixed k => n == k
+  | .conv k => some k
+  | .bad => none
+  | _ => n
 
 def showTab (t : MTab) : String := showMap t.own ++ ";" ++ showMap t.back
 
@@ -268,8 +286,8 @@ structure TCall where
   fn : String
   t1 : Option TabIn
   t2 : Option TabIn
-  n1 : Int
-  n2 : Int
+  n1 : Option Int
+  n2 : Option Int
   args : Array Arg
 
 def isTab1 : Option Arg → Bool
@@ -293,7 +311,18 @@ def tabFn (c : TCall) : String :=
   | some .t1, some tin =>
     if !lenOK tin c.n1 then "= badlen" else
     let st := tin.tab
-    let n := c.n1
+    -- which calls ask for the length (luaL_len / aux_getn): insert, remove, concat always; unpack only without an
+    -- explicit end; move never.  A __len result that is not convertible to an integer makes exactly those fail.
+    let needLen := match c.fn with
+      | "insert" | "remove" | "concat" => true
+      | "unpack" => (match arg 2 with | none => true | some (.v .nil) => true | _ => false)
+      | _ => false
+    match effLen tin c.n1, needLen with
+    | none, true => "= err"
+    | en, _ =>
+    let n := en.getD 0
+    let hasFloat := (st.own ++ st.back).any fun p => match p.2 with | .flt _ => true | _ => false
+    if c.fn == "concat" && hasFloat then "?" else      -- the format of floats is not specified
     match c.fn with
     | "insert" =>
       if argc == 2 then
@@ -386,22 +415,17 @@ def tabFn (c : TCall) : String :=
 
 /-! ### sort: validate the observed final state against the relation -/
 
-def ltInt := TabLib.namedLt
-def provedSWO := TabLib.provedSWO
-
-def bytesLt : Bytes → Bytes → Bool
-  | [], [] => false
-  | [], _ :: _ => true
-  | _ :: _, [] => false
-  | a :: as, b :: bs => if a < b then true else if b < a then false else bytesLt as bs
-
-def allInts (l : List Val) : Option (List Int) := l.mapM fun v => match v with | .int i => some i | _ => none
-def allStrs (l : List Val) : Option (List Bytes) := l.mapM fun v => match v with | .str s => some s | _ => none
-
 def outside (m : Map) (n : Int) : Map := sortMap (m.filter fun p => p.1 < 1 || p.1 > n)
 
-def sortCheck (tin : TabIn) (n : Int) (cmp : Option String) (outcome : String) (own' back' : Map) : String :=
-  if !lenOK tin n then "! bad length-not-a-border" else
+def isInt : Val → Bool | .int _ => true | _ => false
+def isStr : Val → Bool | .str _ => true | _ => false
+def isRealNum (v : Val) : Bool := match v.num? with | some x => !x.isNaN | none => false
+
+def sortCheck (tin : TabIn) (nObs : Option Int) (cmp : Option String) (outcome : String) (own' back' : Map) : String :=
+  if !lenOK tin nObs then "! bad length-not-a-border" else
+  match effLen tin nObs with
+  | none => if outcome == "err" then "! ok" else "! bad non-integer-length-accepted"
+  | some n =>
   if n > 100000 then "?" else
   let cnt := n.toNat
   let st := tin.tab
@@ -422,30 +446,39 @@ def sortCheck (tin : TabIn) (n : Int) (cmp : Option String) (outcome : String) (
       if st.nidx == .err && cnt ≥ 2 then
         -- a read-only proxy: a sort that needs to move anything must fail; if nothing moved either outcome is fine
         "! ok"
+      else if cnt < 2 then mustOk true
       else
-      match cmp with
+      -- the comparison as a function on values: Lua's `<` by default (exact on numbers, bytewise on strings)
+      let f? : Option (Val → Val → Option Bool) := match cmp with
+        | none => some TabLib.luaLt
+        | some name => TabLib.namedCmp name
+      match f? with
       | none =>
-        if cnt < 2 then mustOk true else
-        match allInts after, allStrs after with
-        | some is, _ => mustOk (TabLib.isSortedAdj (fun a b => decide (a < b)) is)
-        | _, some ss => mustOk (TabLib.isSortedAdj bytesLt ss)
-        | none, none => mustErr
-      | some name =>
-        if cnt < 2 then mustOk true else
-        match allInts before, allInts after with
-        | some bi, some ai =>
-          match ltInt name with
-          | some lt =>
-            -- short lists: brute-force check of the strict-weak-order laws on the elements;
-            -- long lists: the comparisons proved to be strict weak orders on all integers (Props.C19.named_comparisons_swo)
-            let swo := if cnt ≤ 40 then TabLib.isSWOOn lt bi else provedSWO name
-            if swo then mustOk (TabLib.isSortedAdj lt ai)
-            else "! ok"     -- inconsistent comparison: any permutation, with or without "invalid order function"
-          | none =>
-            if name == "err1" then mustErr
-            else if name == "notfn" then mustErr
-            else "! ok"     -- random / late-erroring comparison: permutation only
-        | _, _ => "! ok"     -- the comparison is applied to non-integers (it may raise): permutation only
+        if cmp == some "err1" || cmp == some "notfn" then mustErr
+        else "! ok"     -- random / late-erroring comparison: permutation only
+      | some f =>
+        -- (integers are comparable with integers by every comparison of the harness: no need to try all pairs)
+        let total := before.all isInt || before.all fun a => before.all fun b => (f a b).isSome
+        if !total then
+          -- some pair of elements cannot be compared (number with string, booleans, nil, …): every sort has to
+          -- compare each element with some other, and the comparable ones among themselves only, so it must raise
+          let name := cmp.getD "lt"
+          if name == "mod3" || name == "abs" then "! ok" else mustErr
+        else
+          let lt (a b : Val) : Bool := (f a b).getD false
+          let name := cmp.getD "lt"
+          -- short lists: brute-force check of the strict-weak-order laws on the elements; long lists: the
+          -- comparisons proved to be strict weak orders (Props.C19.named_comparisons_swo, lua_order_swo)
+          let swo := if cnt ≤ 40 then
+              -- the n² outcomes are tabulated once; the laws are then checked on positions (the same predicate
+              -- pulled back along `i ↦ before[i]`), which keeps exact number comparison out of the n³ loop
+              let arr := before.toArray
+              let m := arr.map fun a => arr.map fun b => lt a b
+              TabLib.isSWOOn (fun i j => (m[i]?.bind fun r => r[j]?).getD false) (List.range arr.size)
+            else (TabLib.provedSWO name && before.all isInt)
+              || (name == "lt" && (before.all isRealNum || before.all isStr))
+          if swo then mustOk (TabLib.isSortedAdj lt after)
+          else "! ok"     -- inconsistent comparison: any permutation, with or without "invalid order function"
 
 /-! ### driver -/
 
@@ -473,8 +506,8 @@ def handle (line : String) : String :=
     let nTok := rest.filter (·.startsWith "n=")
     let mTok := rest.filter (·.startsWith "m=")
     let argToks := rest.filter fun s => !(s.startsWith "n=") && !(s.startsWith "m=")
-    let n1 := (nTok.head?.bind fun s => (s.drop 2).toString.toInt?).getD 0
-    let n2 := (mTok.head?.bind fun s => (s.drop 2).toString.toInt?).getD 0
+    let n1 := nTok.head?.bind fun s => (s.drop 2).toString.toInt?
+    let n2 := mTok.head?.bind fun s => (s.drop 2).toString.toInt?
     match tabs.mapM parseTab, argToks.mapM fun s => (if s.startsWith "cmp:" then some (Arg.v .nil) else Arg.parse s) with
     | some ts, some as =>
       if fn == "sort" then
